@@ -35,7 +35,7 @@ CLAIMS = {
                   "clamped), `eval_slice` (fresh cell, exact domain, defaults), `slice_concat_law`, `concat_index_law`, "
                   "`assign_then_index`, `range_assign_program`, `range_assign_open_end`; exhaustive "
                   "run-level correspondence over all lists/strings of length ≤4/≤5 × all indices/bounds in [-2,len+2] incl. omitted × read / "
-                  "element assign / range assign; Python slicing with explicit domains is the model-free oracle.",
+                  "element assign / range assign; Python slicing with explicit domains is the model-free oracle. Extension C11x: `range_assign_from_own_slice` (a slice of the list assigned over another range of the same list: a snapshot of the old items is spliced, also when the ranges overlap).",
              ref="§6 C11", technique="Lean 4 theorems on the model's sequence primitives + exhaustive index-grid correspondence + Python oracle"),
  "C17": dict(text="Lean theorems: every error any evaluator function returns is located (G5, induction over all 23 functions), a located "
                   "error renders as `<l>:<c>:[ in 'f':] msg`, the stack trace has one line per active call ending at <root>, failures keep the "
@@ -141,7 +141,7 @@ CLAIMS.update({
                   "global invariant: every object cell of every reachable state — also after an error — is sorted "
                   "(`objects_always_sorted`, `reachable_sorted`, all 23 evaluator functions), so the key-order theorems hold without "
                   "hypothesis for reached states. "
-                  "Tie + Python dict oracle over key histories in all insertion orders.",
+                  "Tie + Python dict oracle over key histories in all insertion orders. Extension C12x: `opassign_key_evaluated_once` (in `o[ke] op= rhs` the key expression is evaluated exactly once).",
              ref="§6 C12", technique="Lean 4 finite-map theorems on the object model + permutation-exhaustive history correspondence + dict oracle"),
  "C13": dict(text="Lean theorems: list/object destructuring binds positions/names, collect is `drop n` in a fresh cell and lossless, spread is "
                   "concatenation, `f(xs..)` = `f(xs[0],…)`, arity rule incl. rest parameter, same binding engine for `:=`, `=`, `for` and "
@@ -151,7 +151,7 @@ CLAIMS.update({
                   "changes nothing else; exact error at every depth; `assign_nested`: the same for ASSIGNMENT through patterns of any depth "
                   "(ok iff shape, distinct leaf names, every leaf declared in the chain; each leaf stored in its nearest binding; frame and "
                   "read-back) (computed keys and index/property targets stay at depth 1). Tie + Python destructuring "
-                  "reference and in-language round-trip laws over patterns × sources × positions (keys `_` included: defect D10, repaired).",
+                  "reference and in-language round-trip laws over patterns × sources × positions (keys `_` included: defect D10, repaired). Extension C13x: `swap_by_destructuring` / `rotate_by_destructuring` (the right-hand side is evaluated completely before anything is bound).",
              ref="§6 C13", technique="Lean 4 bind/spread theorems + pattern×source exhaustive correspondence + Python reference oracle"),
  "C14": dict(text="Lean theorems: arguments evaluated once left to right before the callee, arity rule, parameters live in a fresh scope cell "
                   "on the closure chain (assigning one changes only that cell; mutating a passed container is shared), provenance: property/index "
